@@ -256,6 +256,33 @@ def sample_oracle(seed, model=None, interp=None):
     return None
 
 
+def throwaway_cosmo_oracle(seed):
+    """a sampler builds a NEW cosmology object for every proposal and drops the old one: a lens that measures magnitudes
+    relative to the anchor only (Mag) returns the same value for every overall distance scale, whichever objects lived (and
+    died) before — evaluated on one lens object with a sequence of throw-away cosmology objects of different H0"""
+    import random
+    rng = random.Random(seed)
+    cfg, h = lc.gen_lens_cfg(rng, "Mag", sharp=True)
+    data = lc.data_kwargs(rng, "Mag")
+    lc.finish_scaling(rng, cfg, data, "Mag")
+    lens = lc.make_lens("Mag", cfg, data)
+    a, b = rng.uniform(1200, 1800), rng.uniform(0.4, 0.8)
+    vals = []
+    scales = [1.0, 1.2, 0.7, 2.5, 0.1, 1.0, 3.0, 0.45]
+    hh = copy.deepcopy(h)
+    for sc in scales:
+        # (each object is dropped before the next one is built: CPython hands the freed block — and its id() — to the next one)
+        cosmo = lc.FakeCosmo(scale=sc, a=a, b=b)
+        vals.append(float(np.squeeze(lens.lens_log_likelihood(cosmo, **hh))))
+        del cosmo
+    if not all(math.isfinite(v) for v in vals):
+        return None
+    if max(vals) - min(vals) > 1e-8 * max(1.0, abs(vals[0])):
+        return ("a Mag lens evaluated with a sequence of throw-away cosmology objects (distance scales %r, each object dropped before "
+                "the next is built) depends on the distance scale: %r" % (scales, vals))
+    return None
+
+
 def run(ctx, res):
     rng = ctx.rng
     per = ctx.n(5, 90)
@@ -316,6 +343,17 @@ def run(ctx, res):
         res.count("sample_flat_H0")
         if f:
             res.violation("H0-scaling[sample]:flat-posterior", f, {"sample": True, "seed": sseed, "model": smodel, "interp": sinterp})
+    for _ in range(ctx.n(8, 60)):
+        tseed = rng.randrange(2 ** 30)
+        try:
+            f = throwaway_cosmo_oracle(tseed)
+        except Exception as e:  # noqa
+            res.notes.append("throw-away cosmology check failed to run: %r" % (e,))
+            continue
+        res.evaluations += 1
+        res.count("throwaway_cosmology_objects")
+        if f:
+            res.violation("H0-scaling[Mag]:throw-away-cosmology-objects", f, {"throwaway": True, "seed": tseed})
     if ctx.search_mode:
         return
     outs = run_driver(lines)
@@ -331,6 +369,9 @@ def run(ctx, res):
 
 def replay(ctx, data):
     import random
+    if data["input"].get("throwaway"):
+        f = throwaway_cosmo_oracle(data["input"]["seed"])
+        return bool(f), (f or "throw-away cosmology oracle holds")
     if data["input"].get("sample"):
         f = sample_oracle(data["input"].get("seed", 0), data["input"].get("model"), data["input"].get("interp"))
         return bool(f), (f or "sample oracle holds")
